@@ -112,4 +112,38 @@ def distribute (ibc : Fixed64) (share : Fixed64 → Fixed64) (inp : Input) : Opt
     let change := inp.reward - real
     if lt change 0 then none else some (m, change)
 
+/-! ### the bookkeeping around the distribution (accumulateReward, clearingDPOSReward, forceChange) -/
+
+/-- the reward fields of `Arbiters` -/
+structure Book where
+  acc : Fixed64          -- accumulativeReward
+  rr : RMap              -- arbitersRoundReward
+  change : Fixed64       -- finalRoundChange
+  forceChanged : Bool
+  deriving Repr
+
+/-- accumulateReward, pre-DPoSv2 era, height ≥ PublicDPOSHeight: `b` = getBlockDPOSReward(block),
+    `voting` = height ≥ CRVotingStartHeight -/
+def accumulate (voting : Bool) (b : Fixed64) (s : Book) : Book :=
+  let acc := if !voting || !s.forceChanged then s.acc + b else s.acc
+  { acc := acc, rr := [], change := 0, forceChanged := false }
+
+/-- the pool a clearing distributes and what it carries forward -/
+def clearingPool (smooth : Bool) (b : Fixed64) (s : Book) : Fixed64 × Fixed64 :=
+  if smooth then (s.acc + b, 0) else (s.acc, b)
+
+/-- clearingDPOSReward (+ `forceChanged = true` of forceChange when not smooth).  `dist` is
+    distributeDPOSReward as a function of the pool; an error leaves the state unchanged. -/
+def clearing (dist : Fixed64 → Option (RMap × Fixed64)) (smooth : Bool) (b : Fixed64) (s : Book) : Option Book :=
+  let (pool, carry) := clearingPool smooth b s
+  match dist pool with
+  | none => none
+  | some (m, change) =>
+    some { acc := carry, rr := m, change := change, forceChanged := if smooth then s.forceChanged else true }
+
+/-- blockchain.CheckCoinbaseArbitratorsReward: as many reward outputs as entries of the round
+    reward, every one to a known recipient with exactly its amount -/
+def coinbaseRoundCheck (rr : RMap) (outs : List (Key × Fixed64)) : Bool :=
+  rr.length == outs.length && outs.all (fun o => rr.get o.1 == some o.2)
+
 end ElaVerif.Distribute
